@@ -91,6 +91,38 @@ fn c10_for(lname: &str, comp: Comp, thorough: bool, seed: u64) -> Vec<CaseOut> {
             Err(e) => record(format!("basic:{name}"), Err(("creation failed".into(), e)), case(name)),
         }
     }
+    // a'. extra packs written somewhere else than next to the entry-point file: read in place,
+    // then again after the whole tree has been moved (recorded locations are relative to the
+    // entry-point file, so the set of files can be handled as a whole)
+    if !l.extra_packs.is_empty() {
+        for (pname, p) in [("OneFile", Packaging::OneFile), ("TwoFiles", Packaging::TwoFiles), ("NoConcat", Packaging::NoConcat)] {
+            for (where_, rel) in [("same", "main"), ("below", "main/sub/deeper"), ("sibling", "extras"), ("parent", "."), ("cousin", "other/place")] {
+                let root = base.path().join(format!("place-{pname}-{where_}"));
+                let tree = root.join("tree");
+                let main = tree.join("main");
+                let ed = tree.join(rel);
+                std::fs::create_dir_all(&main).unwrap();
+                std::fs::create_dir_all(&ed).unwrap();
+                let what = format!("placed:{pname}:{where_}");
+                let cj = json!({"engine":"packmc","sub":"c10","logical":lname,"comp":comp.name(),"packaging":format!("placed-{pname}-{where_}")});
+                match create_logical_ext(&l, comp, p, &main, "c", &ed) {
+                    Ok(c) => {
+                        let r = dump_vs_model(&l, &c.path).map(|_| ());
+                        record(format!("{what}:in-place"), r, cj.clone());
+                        let moved = root.join("moved-elsewhere");
+                        match std::fs::rename(&tree, &moved) {
+                            Ok(()) => {
+                                let r = dump_vs_model(&l, &moved.join("main").join("c.jbk")).map(|_| ());
+                                record(format!("{what}:tree-moved"), r, cj);
+                            }
+                            Err(e) => record(format!("{what}:tree-moved"), Err(("MACHINERY rename failed".into(), e.to_string())), cj),
+                        }
+                    }
+                    Err(e) => record(format!("{what}:in-place"), Err(("creation failed".into(), e)), cj),
+                }
+            }
+        }
+    }
     // b. concat of the separate files in every order
     if let Some(sep) = created.get("NoConcat") {
         let files = sep.files.clone();
@@ -212,7 +244,7 @@ fn c10(args: &Args) -> ! {
     let mut rep = Report::new(
         "packmc",
         "C10",
-        "each logical container (shapes small / multi / multi2 with two extra content packs) x compression is created as OneFile, TwoFiles, NoConcat; its separate files are concatenated in every order (all permutations), a concat output is concatenated again, manifest+directory only (content through the recorded location), a decoy pack sits at the recorded location while the real one is inside, TwoFiles' files concatenated in both orders, and the one-file container is embedded after prefixes (lengths x 5 kinds); every packaging's full dump must equal the reference model's; non-trivial = every case; distinct by (logical, compression, packaging, order/prefix)",
+        "each logical container (shapes small / multi / multi2 with two extra content packs) x compression is created as OneFile, TwoFiles, NoConcat; with its extra packs written next to / below / beside / above the entry-point file, read in place and after moving the whole tree; its separate files are concatenated in every order (all permutations), a concat output is concatenated again, manifest+directory only (content through the recorded location), a decoy pack sits at the recorded location while the real one is inside, TwoFiles' files concatenated in both orders, and the one-file container is embedded after prefixes (lengths x 5 kinds); every packaging's full dump must equal the reference model's; non-trivial = every case; distinct by (logical, compression, packaging, order/prefix)",
     );
     let t = args.thorough();
     let mut configs: Vec<(&str, Comp)> = vec![];
@@ -248,7 +280,11 @@ fn c10(args: &Args) -> ! {
             rep.sample(json!(r.id));
         }
         if let Some((k, w, c)) = r.violation {
-            rep.violation(&k, &w, c);
+            if k.contains("MACHINERY") {
+                rep.machinery_errors.push(w);
+            } else {
+                rep.violation(&k, &w, c);
+            }
         }
     }
     rep.note("a prefix that is itself a CRC-valid pack header is not enumerated: the reader documents that a valid header at offset 0 wins");
@@ -265,7 +301,8 @@ enum Unavail {
 }
 
 /// Low-level construction: bare content packs + bare directory + manifest file with locations.
-fn create_lowlevel(l: &Logical, comp: Comp, dir: &Path) -> Result<CreatedLogical, String> {
+/// `order`: the order in which [directory, pack 1, .., pack n] are listed in the manifest.
+fn create_lowlevel(l: &Logical, comp: Comp, dir: &Path, order: &[usize]) -> Result<CreatedLogical, String> {
     jbkmc::catch(|| -> Result<CreatedLogical, String> {
         let vendor = jbk::VendorId::from(VENDOR);
         let mut files = vec![];
@@ -291,8 +328,13 @@ fn create_lowlevel(l: &Logical, comp: Comp, dir: &Path) -> Result<CreatedLogical
         let mut df = std::fs::OpenOptions::new().read(true).write(true).create(true).truncate(true).open(&dp).map_err(|e| e.to_string())?;
         let dinfo = d.finalize().map_err(|e| e.to_string())?.write(&mut df).map_err(|e| e.to_string())?;
         let mut m = jbk::creator::ManifestPackCreator::new(vendor, Default::default());
-        m.add_pack(dinfo, "dir.jbkd");
-        for (info, loc) in infos {
+        let mut listed: Vec<Option<(jbk::creator::PackData, String)>> = vec![Some((dinfo, "dir.jbkd".to_string()))];
+        listed.extend(infos.into_iter().map(Some));
+        let identity: Vec<usize> = (0..listed.len()).collect();
+        let order: &[usize] = if order.is_empty() { &identity } else { order };
+        assert_eq!(order.len(), listed.len());
+        for &k in order {
+            let (info, loc) = listed[k].take().expect("each pack once");
             m.add_pack(info, loc);
         }
         let mp = dir.join("main.jbkm");
@@ -305,6 +347,9 @@ fn create_lowlevel(l: &Logical, comp: Comp, dir: &Path) -> Result<CreatedLogical
     })
     .unwrap_or_else(|p| Err(format!("panic {p}")))
 }
+
+type Template = (tempfile::TempDir, Result<CreatedLogical, String>);
+static TEMPLATES: std::sync::Mutex<std::collections::BTreeMap<String, std::sync::Arc<Template>>> = std::sync::Mutex::new(std::collections::BTreeMap::new());
 
 fn logical_n(n: usize) -> Logical {
     let mut l = shape("multi2");
@@ -326,19 +371,43 @@ fn logical_n(n: usize) -> Logical {
     l
 }
 
-fn c11_case(n: usize, lowlevel: bool, comp: Comp, assign: &[Option<Unavail>]) -> CaseOut {
+/// `inside[k]`: content pack k+1 is also embedded in the entry-point file (a concat of manifest,
+/// directory and those packs); what `assign[k]` then does to the file at its recorded location
+/// must not matter: the pack is available by identity inside the file at hand.
+fn c11_case(n: usize, lowlevel: bool, order: &[usize], inside: &[bool], comp: Comp, assign: &[Option<Unavail>]) -> CaseOut {
     let l = logical_n(n);
     let base = jbkmc::scratch_dir("miss");
     let d = base.path().join("c");
     std::fs::create_dir_all(&d).unwrap();
-    let id = format!("n={n} lowlevel={lowlevel} comp={} {:?}", comp.name(), assign);
-    let case = json!({"engine":"packmc","sub":"c11","n":n,"lowlevel":lowlevel,"comp":comp.name(),
+    let id = format!("n={n} lowlevel={lowlevel} order={order:?} inside={inside:?} comp={} {:?}", comp.name(), assign);
+    let is_inside = |k: usize| inside.get(k).copied().unwrap_or(false);
+    let case = json!({"engine":"packmc","sub":"c11","n":n,"lowlevel":lowlevel,"order":order,"inside":inside,"comp":comp.name(),
         "unavailable": assign.iter().map(|a| a.map(|x| format!("{x:?}"))).collect::<Vec<_>>()});
     let fail = |k: &str, w: String| CaseOut { id: id.clone(), outcome: "violation".into(), violation: Some((format!("C11 {k}"), w, case.clone())) };
-    let created = if lowlevel { create_lowlevel(&l, comp, &d) } else { create_logical(&l, comp, Packaging::NoConcat, &d, "c") };
-    let created = match created {
-        Ok(c) => c,
-        Err(e) => return fail("creation failed", e),
+    // the packs are the same for every case of one construction: create them once, copy per case
+    let created = {
+        let key = format!("{n}/{lowlevel}/{order:?}/{}", comp.name());
+        let tpl = {
+            let mut map = TEMPLATES.lock().unwrap();
+            if !map.contains_key(&key) {
+                let td = jbkmc::scratch_dir("misstpl");
+                let c = if lowlevel { create_lowlevel(&l, comp, td.path(), order) } else { create_logical(&l, comp, Packaging::NoConcat, td.path(), "c") };
+                map.insert(key.clone(), std::sync::Arc::new((td, c)));
+            }
+            map.get(&key).unwrap().clone()
+        };
+        match &tpl.1 {
+            Err(e) => return fail("creation failed", e.clone()),
+            Ok(c) => {
+                let mut files = vec![];
+                for f in &c.files {
+                    let to = d.join(f.file_name().unwrap());
+                    std::fs::copy(f, &to).unwrap();
+                    files.push(to);
+                }
+                CreatedLogical { path: d.join(c.path.file_name().unwrap()), files }
+            }
+        }
     };
     // which file holds content pack id k (1-based)?
     let pack_file = |id: usize| -> PathBuf {
@@ -352,6 +421,23 @@ fn c11_case(n: usize, lowlevel: bool, comp: Comp, assign: &[Option<Unavail>]) ->
     };
     // pristine manifest view (what MISSING must report)
     let pristine_manifest = dump_manifest(&created.path);
+    // entry point: the manifest file, or a concat of manifest + directory + the packs held inside
+    let entry: PathBuf = if inside.iter().any(|x| *x) {
+        assert!(lowlevel);
+        let mut files = vec![created.path.clone(), d.join("dir.jbkd")];
+        for k in 0..n {
+            if is_inside(k) {
+                files.push(pack_file(k + 1));
+            }
+        }
+        let e = d.join("entry.jbk");
+        if let Err(e) = concat(&files, &e) {
+            return fail("concat failed", e);
+        }
+        e
+    } else {
+        created.path.clone()
+    };
     // a different valid content pack with the same number of contents (for OtherPack)
     let decoy_dir = base.path().join("decoy");
     std::fs::create_dir_all(&decoy_dir).unwrap();
@@ -388,7 +474,7 @@ fn c11_case(n: usize, lowlevel: bool, comp: Comp, assign: &[Option<Unavail>]) ->
     }
     // ---- read
     let opts = opts_for(&l);
-    let dump = match jbkmc::catch(|| dump_container(&created.path, &opts)) {
+    let dump = match jbkmc::catch(|| dump_container(&entry, &opts)) {
         Ok(d) => d,
         Err(p) => return fail(&format!("panic {}", jbkmc::panic_site(&p)), p),
     };
@@ -403,7 +489,7 @@ fn c11_case(n: usize, lowlevel: bool, comp: Comp, assign: &[Option<Unavail>]) ->
     }
     let all_items: Vec<(usize, usize)> = std::iter::once((1, l.contents.len())).chain(l.extra_packs.iter().enumerate().map(|(k, e)| (k + 2, e.len()))).collect();
     for (id, count) in all_items {
-        let unavailable = assign[id - 1].is_some();
+        let unavailable = assign[id - 1].is_some() && !is_inside(id - 1);
         let recorded = pristine_manifest["packs"].as_array().and_then(|a| a.iter().find(|p| p["id"] == json!(id))).cloned().unwrap_or(J::Null);
         for i in 0..count {
             let node = &dump["contents"][format!("{id}/{i}")];
@@ -439,7 +525,7 @@ fn c11_case(n: usize, lowlevel: bool, comp: Comp, assign: &[Option<Unavail>]) ->
     // "The container check covers the packs that are present": damage one stored byte of each
     // available content pack in turn; check() must then not answer true.
     for (k, a) in assign.iter().enumerate() {
-        if a.is_some() {
+        if a.is_some() || is_inside(k) {
             continue;
         }
         let f = pack_file(k + 1);
@@ -453,7 +539,7 @@ fn c11_case(n: usize, lowlevel: bool, comp: Comp, assign: &[Option<Unavail>]) ->
         let mut b = orig.clone();
         b[pos] ^= 0x40;
         std::fs::write(&f, &b).unwrap();
-        let chk = jbkmc::catch(|| jbk::reader::Container::new(&created.path).and_then(|c| c.check()));
+        let chk = jbkmc::catch(|| jbk::reader::Container::new(&entry).and_then(|c| c.check()));
         std::fs::write(&f, &orig).unwrap();
         if let Ok(Ok(true)) = chk {
             return fail(
@@ -469,18 +555,52 @@ fn c11(args: &Args) -> ! {
     let mut rep = Report::new(
         "packmc",
         "C11",
-        "containers with n in {1,2,3} (thorough: 4) content packs in separate files, built by BasicCreator NoConcat+extras and by the low-level creators; every subset of the content packs x every way {removed, replaced by a directory, replaced by a different valid content pack with the same content count} per member (full product); oracle: opens, every entry as the model, available contents read, unavailable ones MISSING with the recorded uuid/id/location, check() true, unknown pack id -> none; non-trivial = at least one pack unavailable",
+        "containers with n in {1,2,3} (thorough: 4) content packs in separate files, built by BasicCreator NoConcat+extras and by the low-level creators with the manifest listing the directory and the content packs in every order (n<=2, thorough n<=3) or in identity/reversed/rotated orders; every subset of the content packs x every way {removed, replaced by a directory, replaced by a different valid content pack with the same content count} per member (full product); the same with every non-empty subset of the packs also held inside the entry-point file (concat), where the file at the recorded location must not matter; oracle: opens, every entry as the model, available contents read, unavailable ones MISSING with the recorded uuid/id/location, check() true, unknown pack id -> none; non-trivial = at least one pack unavailable",
     );
     let t = args.thorough();
     let ways = [None, Some(Unavail::Removed), Some(Unavail::Directory), Some(Unavail::OtherPack)];
-    let mut cases: Vec<(usize, bool, Comp, Vec<Option<Unavail>>)> = vec![];
+    let mut cases: Vec<(usize, bool, Vec<usize>, Vec<bool>, Comp, Vec<Option<Unavail>>)> = vec![];
     let maxn = if t { 4 } else { 3 };
     for n in 1..=maxn {
-        for lowlevel in [false, true] {
+        // constructions: BasicCreator, and the low-level creators with the manifest listing
+        // [directory, pack 1..n] in every order (n<=2; n=3 in thorough) or in a spread of orders
+        // (identity, reversed = descending ids with the directory last, rotations)
+        let mut constructions: Vec<(bool, Vec<usize>)> = vec![(false, vec![])];
+        let perms = permutations(n + 1);
+        if n <= 2 || (t && n == 3) {
+            constructions.extend(perms.into_iter().map(|p| (true, p)));
+        } else {
+            let id: Vec<usize> = (0..=n).collect();
+            let mut rev = id.clone();
+            rev.reverse();
+            let mut picks = vec![id.clone(), rev.clone()];
+            for r in 1..=n {
+                let mut a = id.clone();
+                a.rotate_left(r);
+                picks.push(a);
+                let mut b = rev.clone();
+                b.rotate_left(r);
+                picks.push(b);
+            }
+            picks.sort();
+            picks.dedup();
+            constructions.extend(picks.into_iter().map(|p| (true, p)));
+        }
+        for (lowlevel, order) in constructions {
             let comps: Vec<Comp> = if t { vec![Comp::None, Comp::Zstd(5), Comp::Lz4(3), Comp::Lzma(1)] } else { vec![Comp::None, Comp::Zstd(5)] };
             for comp in comps {
                 for sel in sequences(4, n) {
-                    cases.push((n, lowlevel, comp, sel.iter().map(|&i| ways[i]).collect()));
+                    cases.push((n, lowlevel, order.clone(), vec![], comp, sel.iter().map(|&i| ways[i]).collect()));
+                }
+            }
+        }
+        // some packs held by the entry-point file itself (every non-empty subset), the file at
+        // their recorded location kept / removed / a directory / a different valid pack
+        for mask in 1u32..(1 << n) {
+            let inside: Vec<bool> = (0..n).map(|k| mask >> k & 1 == 1).collect();
+            for comp in [Comp::None, Comp::Zstd(5)] {
+                for sel in sequences(4, n) {
+                    cases.push((n, true, vec![], inside.clone(), comp, sel.iter().map(|&i| ways[i]).collect()));
                 }
             }
         }
@@ -494,10 +614,12 @@ fn c11(args: &Args) -> ! {
             Some("OtherPack") => Some(Unavail::OtherPack),
             _ => None,
         }).collect();
-        cases = vec![(case["n"].as_u64().unwrap() as usize, case["lowlevel"].as_bool().unwrap(), Comp::parse(case["comp"].as_str().unwrap()), assign)];
+        let order: Vec<usize> = case["order"].as_array().map(|a| a.iter().map(|x| x.as_u64().unwrap() as usize).collect()).unwrap_or_default();
+        let inside: Vec<bool> = case["inside"].as_array().map(|a| a.iter().map(|x| x.as_bool().unwrap()).collect()).unwrap_or_default();
+        cases = vec![(case["n"].as_u64().unwrap() as usize, case["lowlevel"].as_bool().unwrap(), order, inside, Comp::parse(case["comp"].as_str().unwrap()), assign)];
     }
-    let results: Vec<CaseOut> = cases.par_iter().map(|(n, ll, c, a)| c11_case(*n, *ll, *c, a)).collect();
-    for (r, (_, _, _, a)) in results.into_iter().zip(cases.iter()) {
+    let results: Vec<CaseOut> = cases.par_iter().map(|(n, ll, o, i, c, a)| c11_case(*n, *ll, o, i, *c, a)).collect();
+    for (r, (_, _, _, _, _, a)) in results.into_iter().zip(cases.iter()) {
         let nontrivial = a.iter().any(|x| x.is_some());
         rep.case(if nontrivial { Some(&r.id) } else { None }, &r.outcome);
         if rep.samples.len() < 5 && nontrivial {
@@ -511,6 +633,7 @@ fn c11(args: &Args) -> ! {
             }
         }
     }
+    TEMPLATES.lock().unwrap().clear();
     rep.finish(args)
 }
 
